@@ -9,6 +9,8 @@ NOTE_COMMON=("Trusted: go/packages+go/ssa lowering of /repo's working tree, the 
 claimed={
  "C18":dict(text="Bounded symbolic model checking of the real padding code (go/ssa -> SMT): for each (scheme, block size, length, spare-capacity) case the message bytes, the spare-capacity bytes and candidate padded strings are symbolic, Pad is compared with a reference written from the standards, Unpad∘Pad=id, and the accept set of Unpad is shown to contain only strings Pad produces; every Go run-time panic on a feasible path is a violation. Exhaustive over contents inside the stated size bounds; thorough covers every block size 1..255.",
    ref="DESIGN.md section 4 C18", technique="bounded symbolic execution of go/ssa with SMT (z3) discharge; counterexamples replayed natively"),
+ "C19":dict(text="Bounded symbolic model checking of the real cbcmac code over an uninterpreted keyed permutation (UF-E): for every key and every message content of each length 0..3 blocks+1 (thorough: 5 blocks+1), block size 8/16 and tag size, each of the eight constructions is compared with a reference written from ISO/IEC 9797-1 / GB/T 15852.1; CMAC streaming is checked for every 3-way write split with interleaved Sum on fresh, Reset and previously used objects; injectivity of the final-block transformations is an SMT query using the permutation axioms. One known finding (CBCR0 shift instead of rotation, pinned by an existing test vector) is reported as KNOWN-FINDING.",
+   ref="DESIGN.md section 4 C19", technique="bounded symbolic execution of go/ssa over an uninterpreted block cipher, SMT (z3 5.1, cvc5 cross-check) discharge; counterexamples replayed natively"),
 }
 NA={
  "C20":"data-race freedom over all schedules needs a concurrent execution model (threads, happens-before, sync/atomic); the go/ssa symbolic executor is sequential by construction and no Go symbolic concurrency engine is available in the image (DESIGN.md section 4 C20)",
